@@ -16,9 +16,14 @@ results = json.load(open(res_path)) if os.path.exists(res_path) else {}
 for mid in ids:
     d = f"seeded/{mid}"
     meta = json.load(open(f"{d}/meta.json"))
-    r = subprocess.run(["git", "-C", "/repo", "apply", "--3way", os.path.abspath(f"{d}/patch.diff")], capture_output=True, text=True)
+    r = subprocess.run(["git", "-C", "/repo", "apply", os.path.abspath(f"{d}/patch.diff")], capture_output=True, text=True)
     if r.returncode != 0:
-        r = subprocess.run(["git", "-C", "/repo", "apply", os.path.abspath(f"{d}/patch.diff")], capture_output=True, text=True)
+        r = subprocess.run(["git", "-C", "/repo", "apply", "--3way", os.path.abspath(f"{d}/patch.diff")], capture_output=True, text=True)
+        conflict = subprocess.run("grep -rl '^<<<<<<< ' --include=*.go /repo | head -1", shell=True, capture_output=True, text=True).stdout.strip()
+        if conflict:
+            r.returncode = 1
+            r.stderr = "3-way merge left conflict markers in " + conflict
+            subprocess.run(["git", "-C", "/repo", "reset", "-q", "--hard", "HEAD"], check=True)
     if r.returncode != 0:
         print(mid, "PATCH DOES NOT APPLY:", r.stderr.strip()[:200]); results[mid] = {"applies": False}; continue
     fired = {}
@@ -36,6 +41,8 @@ for mid in ids:
     finally:
         subprocess.run(["git", "-C", "/repo", "reset", "-q", "--hard", "HEAD"], check=True)
     own = meta["property"]
+    if any("analyser: load" in l for v in fired.values() for l in v):
+        print(mid, "PATCHED TREE DOES NOT TYPE-CHECK (stale patch?)"); results[mid] = {"applies": False, "reason": "patched tree does not type-check"}; continue
     results[mid] = {"applies": True, "property": own, "caught_by_own_property_check": own in fired, "fired": fired}
     print(mid, "own=%s" % ("CAUGHT" if own in fired else "missed"), "others=" + ",".join(k for k in fired if k != own))
     for k, v in fired.items():
